@@ -1065,6 +1065,9 @@ func c08BigFailingDiff(t kit.Fataler) {
 		aerr := u.ApplyDiff(strings.NewReader(sb.String()), 1)
 		_ = u.Close()
 		after, derr := kit.DumpRDBc08(p)
+		if derr == nil && aerr != nil && c08SameChunks(before, after) == "" {
+			c08LargeValidAndOverlong(t, p, v2, before)
+		}
 		_ = os.RemoveAll(dir)
 		if derr != nil {
 			kit.Fail(t, "C08", "setup-error", cs, "dump: %v", derr)
@@ -1075,5 +1078,68 @@ func c08BigFailingDiff(t kit.Fataler) {
 		if d := c08SameChunks(before, after); d != "" || len(before) != len(after) {
 			kit.Fail(t, "C08", "failed-diff-changed-db/big", cs, "a failing diff of %d records left the database changed: %d keys before, %d after (%s)", cs.Records, len(before), len(after), d)
 		}
+	}
+}
+
+// c08LargeValidAndOverlong: (1) a diff whose text ends in a line longer than the
+// scanner's 64 KiB token limit must fail and change nothing although valid lines
+// precede it; (2) a valid diff of ~25 KiB (several I/O buffers) must give the
+// database of the new file.
+func c08LargeValidAndOverlong(t kit.Fataler, p string, v2 bool, before map[string][]string) {
+	cs := c08BigCase{Records: 500, BadLine: "(a 70000-byte line)", V2: v2}
+	var sb strings.Builder
+	for i := 0; i < 20; i++ {
+		fmt.Fprintf(&sb, "++o%d.big.example,192.0.2.4\n", i)
+	}
+	sb.WriteString("+'long.big.example," + strings.Repeat("x", 70000) + "\n")
+	u, err := rdb.NewUpdater(p)
+	if err != nil {
+		kit.Fail(t, "C08", "setup-error", cs, "updater: %v", err)
+	}
+	aerr := u.ApplyDiff(strings.NewReader(sb.String()), 1)
+	_ = u.Close()
+	after, derr := kit.DumpRDBc08(p)
+	if derr != nil {
+		kit.Fail(t, "C08", "setup-error", cs, "dump: %v", derr)
+	}
+	if aerr == nil {
+		kit.Fail(t, "C08", "bad-diff-accepted/overlong-line", cs, "a diff with a 70000-byte line (beyond the scanner's token limit) was applied without error")
+	}
+	if d := c08SameChunks(before, after); d != "" {
+		kit.Fail(t, "C08", "failed-diff-changed-db/overlong-line", cs, "a diff that failed on an overlong line left the database changed: %s", d)
+	}
+	// (2) large valid diff
+	var lines, diff strings.Builder
+	lines.WriteString("+a.big.example,192.0.2.1\n+b.big.example,192.0.2.2\n")
+	for i := 0; i < cs.Records; i++ {
+		l := fmt.Sprintf("+host%04d.big.example,192.0.2.%d,%d", i, i%250+1, 60+i%7)
+		lines.WriteString(l + "\n")
+		diff.WriteString("+" + l + "\n")
+	}
+	u, err = rdb.NewUpdater(p)
+	if err != nil {
+		kit.Fail(t, "C08", "setup-error", cs, "updater: %v", err)
+	}
+	aerr = u.ApplyDiff(strings.NewReader(diff.String()), 1)
+	_ = u.Close()
+	if aerr != nil {
+		kit.Fail(t, "C08", "valid-diff-rejected/large", cs, "a valid diff of %d added lines (%d bytes) was rejected: %v", cs.Records, diff.Len(), aerr)
+	}
+	got, derr := kit.DumpRDBc08(p)
+	if derr != nil {
+		kit.Fail(t, "C08", "setup-error", cs, "dump: %v", derr)
+	}
+	dir2 := kit.Scratch("c08big2")
+	defer os.RemoveAll(dir2)
+	p2, err := kit.Compile([]byte(lines.String()), 1, dir2, c08Backend(v2), kit.DefaultCompile)
+	if err != nil {
+		kit.Fail(t, "C08", "setup-error", cs, "compile: %v", err)
+	}
+	want, derr := kit.DumpRDBc08(p2)
+	if derr != nil {
+		kit.Fail(t, "C08", "setup-error", cs, "dump: %v", derr)
+	}
+	if d := c08SameChunks(want, got); d != "" || len(want) != len(got) {
+		kit.Fail(t, "C08", "db-differs-from-fresh-compile/large", cs, "after a valid diff of %d added lines the database differs from a fresh compile of the new file: %d keys vs %d (%s)", cs.Records, len(got), len(want), d)
 	}
 }
